@@ -11,7 +11,7 @@
    `given` holds the streams the model does not choose: what the source plugins yield and what the loaders of
    the stored data types yield; they are arbitrary chunkings.  Everything else is computed. *)
 From SV Require Import Model.Rows Model.SplitArray Model.Chunk Model.Rechunker Model.Network
-     Proof.RechunkerProof Proof.NetworkProof Proof.NetworkGraphProof Proof.NetworkLoopProof.
+     Proof.RechunkerProof Proof.NetworkProof Proof.NetworkGraphProof Proof.NetworkLoopProof Proof.NetworkDownProof.
 
 (* Plugin.iter with one dependency hands do_compute exactly the dependency's chunks one by one *)
 Theorem C01_single_dependency_iter_is_identity : forall dt run cs s e,
@@ -44,6 +44,18 @@ Theorem C01_kind_exhaust_chunking_independent : forall m f dt run R a b cs,
 Proof. exact run_exhaust_correct. Qed.
 Print Assumptions C01_kind_exhaust_chunking_independent.
 
+(* down-chunking plugins (several sub-chunks per call): any local computation with any cut rule that tiles the call;
+   the harness rule down_cut is such a rule *)
+Theorem C01_kind_down_chunking_independent : forall m h cut dt run R a b cs,
+  local_comp h -> cut_ok cut -> chunking_of dt run R a b cs ->
+  exists out, run_down m h cut cs = Ok out /\ chunking_of (o_dtype m) (o_run m) (h R) a b out.
+Proof. exact run_down_correct. Qed.
+Print Assumptions C01_kind_down_chunking_independent.
+
+Theorem C01_harness_down_cut_tiles_the_call : forall k, cut_ok (down_cut k).
+Proof. exact down_cut_ok. Qed.
+Print Assumptions C01_harness_down_cut_tiles_the_call.
+
 (* same-kind merge consumers are call-wise computations once the calls hold equally many rows of both inputs *)
 Theorem C01_kind_merge_is_callwise : forall a1 a2 b, pair_comp equal_len (h_merge2 a1 a2 b).
 Proof. exact pair_h_merge2. Qed.
@@ -56,7 +68,7 @@ Theorem C01_kind_loop_is_callwise : forall a b, pair_comp (fun _ => True) (h_loo
 Proof. exact pair_h_loop. Qed.
 Print Assumptions C01_kind_loop_is_callwise.
 
-(* results_chunking_independent (partial: the kinds local / exhaust / two-dependency call-wise computations, with
+(* results_chunking_independent (partial: the kinds local / exhaust / down-chunking / two-dependency call-wise computations, with
    the alignment of Plugin.iter for two dependencies as an explicit hypothesis, to be discharged by C08):
    for every topologically ordered graph of such nodes, every chunking of every source and every stored subset
    with any chunking (both through `given`), evaluation succeeds and the stream of EVERY data type carries exactly
@@ -121,13 +133,6 @@ Definition C01_full_results_chunking_independent
     | Some cs => exists R, lookup target (eval_whole src [] g) = Some R /\ tiles R 0 T cs
     | None => lookup target (eval_whole src [] g) = None
     end.
-
-(* the down-chunking kind (several sub-chunks per call, cut by the harness rule down_cut): covered by the
-   correspondence (all four oracles) only *)
-Definition C01_full_kind_down_chunking_independent : Prop :=
-  forall m h k dt run R a b cs,
-  local_comp h -> chunking_of dt run R a b cs ->
-  exists out, run_down m h (down_cut k) cs = Ok out /\ chunking_of (o_dtype m) (o_run m) (h R) a b out.
 
 (* the overlap-window kind is property C09's model (overlap_equals_whole_run, overlap_output_contiguous); in C01 it
    is covered by the correspondence (oracles i, ii, iv) *)
